@@ -4,6 +4,7 @@
 #[verifier::reject_recursive_types(K)]
 pub struct BTreeSet<K> { p: core::marker::PhantomData<K> }
 impl<K> View for BTreeSet<K> { type V = Set<K>; uninterp spec fn view(&self) -> Set<K>; }
+impl<K> Default for BTreeSet<K> { #[verifier::external_body] fn default() -> (r: BTreeSet<K>) ensures r@ == Set::<K>::empty() { unimplemented!() } }
 // Borrow-style lookups (`BTreeSet<String>::contains(&str)`): the borrowed form denotes one key
 pub trait KvxKey<K> { spec fn as_key(&self) -> K; }
 impl<K> KvxKey<K> for K { open spec fn as_key(&self) -> K { *self } }
